@@ -81,18 +81,16 @@ Proof.
 Qed.
 
 Lemma verify_any_qc_np : forall c e q a,
-  g_agg_any (c_g c) = true -> g_equals (c_g c) = true -> verify_any_qc c e q a <> Panic.
+  g_agg_any (c_g c) = true -> verify_any_qc c e q a <> Panic.
 Proof.
-  intros c e q a G G5. unfold verify_any_qc. rewrite G.
+  intros c e q a G. unfold verify_any_qc. rewrite G.
   pose proof (verify_qc_np c q) as Hq.
   destruct (c_aggqc c); [|exact Hq].
   destruct a as [a|]; [|exact Hq].
   pose proof (guarded_agg_np c a) as Ha.
   destruct (match da_sig a with None => Ok false | Some _ => verify_agg c a end) as [[|]| |];
     try congruence; try discriminate.
-  pose proof (qc_equals_total (c_g c) (e_qc_match e) (match dq_sig q with None => false | Some _ => true end)
-                (e_hq_signed e) (e_sig_same e) G5) as He.
-  destruct (qc_equals _ _ _ _ _) as [[|]| |]; try congruence; try discriminate; try exact Hq.
+  destruct (e_qc_match e); [exact Hq|discriminate].
 Qed.
 
 Lemma verify_sync_np : forall c s,
@@ -129,15 +127,15 @@ Proof.
 Qed.
 
 Lemma on_propose_np : forall c e blk agg,
-  g_tc (c_g c) = true -> g_agg_sync (c_g c) = true -> g_agg_any (c_g c) = true -> g_equals (c_g c) = true ->
+  g_tc (c_g c) = true -> g_agg_sync (c_g c) = true -> g_agg_any (c_g c) = true ->
   on_propose c e (Build_dproposal (Some blk) agg) <> Panic.
 Proof.
-  intros c e blk agg G1 G2 G3 G5. unfold on_propose. cbn [dp_block dp_agg].
+  intros c e blk agg G1 G2 G3. unfold on_propose. cbn [dp_block dp_agg].
   pose proof (advance_view_np c (Build_dsync (Some (db_qc blk)) None None) G1 G2) as Ha.
   destruct (advance_view c _) as [v1| |]; try congruence; try discriminate.
   destruct (e_view_ok e); cbn [negb]; [|discriminate].
   destruct (e_vote_rule e); cbn [negb]; [|discriminate].
-  pose proof (verify_any_qc_np c e (db_qc blk) agg G3 G5) as Hv.
+  pose proof (verify_any_qc_np c e (db_qc blk) agg G3) as Hv.
   destruct (verify_any_qc c e (db_qc blk) agg) as [[|]| |]; try congruence; try discriminate.
   destruct (e_leader_ok e); discriminate.
 Qed.
@@ -200,7 +198,6 @@ Proof.
   assert (G2 : g_agg_sync (c_g c) = true) by (rewrite G; reflexivity).
   assert (G3 : g_agg_any (c_g c) = true) by (rewrite G; reflexivity).
   assert (G4 : g_bitfield (c_g c) = true) by (rewrite G; reflexivity).
-  assert (G5 : g_equals (c_g c) = true) by (rewrite G; reflexivity).
   assert (ND : net_delay_returns c e = true).
   { unfold net_delay_returns. rewrite G. cbn [g_latency all_guards]. rewrite !orb_true_r. reflexivity. }
   destruct m as [p|v|s|t|h|k]; cbn [handle].
@@ -335,7 +332,7 @@ Proof.
   intros c e q agg H. unfold verify_any_qc.
   destruct (c_aggqc c); [|exact H]. destruct agg as [a|]; [|exact H].
   destruct (if g_agg_any (c_g c) then _ else _) as [[|]| |]; try discriminate.
-  destruct (qc_equals _ _ _ _ _) as [[|]| |]; try discriminate; try exact H.
+  destruct (e_qc_match e); [exact H|discriminate].
 Qed.
 
 Theorem unverifiable_not_passed : forall c e ctx_ok m,
@@ -419,12 +416,11 @@ Definition set_guard (i : nat) (v : bool) (g : guards) : guards :=
     (match i with 8%nat => v | _ => g_equals g end)
     (match i with 9%nat => v | _ => g_latency g end).
 
-Definition env_all := Build_env true true true true true true true true true.
+Definition env_all := Build_env true true true true true true true.
 (* the sender id is outside the latency matrix (0, n+1, 99, 2^32-1, or a Proposer field with the Kauri tree) *)
-Definition env_outside := Build_env true true true true true true true true false.
+Definition env_outside := Build_env true true true true true true false.
 Definition mkcfg_lat s kauri g := Build_cfg s false false kauri true 3 g.
 (* a proposal whose block QC agrees with a signed high QC in view and hash but has no signature *)
-Definition env_signed_hq := Build_env true true true true true true true false true.
 Definition mkcfg s cache agg g := Build_cfg s cache agg false false 3 g.
 
 (* one witness per guard: with only that guard removed a wire message (or a nil argument of a
@@ -437,8 +433,9 @@ Definition w_agg_any :=
   MPropose (Build_wproposal (Some (Build_wblock (Some (Build_wqc None 0 HGenesis)) 1 false false))
                             (Some (Build_wagg [] None 0))).
 Definition w_cache := MTimeout (Build_wtimeout 1 None None None false false false).
-(* a proposal with a genuine aggregate QC and a block QC that names the block and view of its signed
-   high QC without a signature (env_signed_hq), or a signed QC where the high QC is the genesis QC *)
+(* the proposals that used to reach QuorumCert.Equals with exactly one nil signature: a genuine aggregate QC and
+   a block QC that names the block and view of its signed high QC without a signature, or a signed QC where the high
+   QC is the genesis QC.  VerifyAnyQC now compares view and hash only and verifies the block QC on its own. *)
 Definition w_equals :=
   MPropose (Build_wproposal (Some (Build_wblock (Some (Build_wqc None 1 HKnown)) 2 true true))
                             (Some (Build_wagg [(1, Build_wqc (Some (Some (WMultiE 3 true))) 1 HKnown)]
@@ -447,7 +444,6 @@ Definition w_equals' :=
   MPropose (Build_wproposal (Some (Build_wblock (Some (Build_wqc (Some (Some (WMultiE 1 false))) 0 HGenesis)) 2 true true))
                             (Some (Build_wagg [(1, Build_wqc None 0 HGenesis)]
                                               (Some (Some (WMultiE 3 true))) 1))).
-Definition env_unsigned_hq := Build_env true true true false false true true true true.
 (* a timeout with a valid single BLS view signature from a peer whose id is 0 *)
 Definition w_bitfield := MTimeout (Build_wtimeout 1 None (Some (Some (WBls true 1 true))) None true false false).
 
@@ -467,8 +463,8 @@ Theorem guards_needed :
   handle (mkcfg Ecdsa false true (set_guard 5 false all_guards)) env_all true w_agg_sync = Panic /\
   handle (mkcfg Ecdsa true false (set_guard 6 false all_guards)) env_all true w_cache = Panic /\
   handle (mkcfg Bls false false (set_guard 7 false all_guards)) env_all false w_bitfield = Panic /\
-  handle (mkcfg Ecdsa false true (set_guard 8 false all_guards)) env_signed_hq true w_equals = Panic /\
-  handle (mkcfg Ecdsa false true (set_guard 8 false all_guards)) env_unsigned_hq true w_equals' = Panic /\
+  qc_equals (set_guard 8 false all_guards) true false true false = Panic /\
+  qc_equals (set_guard 8 false all_guards) true true false false = Panic /\
   handle (mkcfg_lat Ecdsa false (set_guard 9 false all_guards)) env_outside true w_lat_newview = Panic /\
   handle (mkcfg_lat Ecdsa false (set_guard 9 false all_guards)) env_outside false w_lat_timeout = Panic /\
   handle (mkcfg_lat Ecdsa true (set_guard 9 false all_guards)) env_outside true w_lat_propose = Panic.
@@ -482,10 +478,11 @@ Theorem latency_witnesses_guarded :
   handle (mkcfg Ecdsa false false (set_guard 9 false all_guards)) env_outside true w_lat_newview = Ok Dropped.
 Proof. vm_compute. repeat split; reflexivity. Qed.
 
-(* with the nil check in Equals both proposals are rejected without touching the state *)
+(* both proposals are rejected by VerifyQuorumCert of the block QC (no signature for a non-genesis block; a signature
+   on a genesis QC) without touching the state, also in a tree whose Equals has lost its nil check *)
 Theorem equals_witnesses_guarded :
-  handle (mkcfg Ecdsa false true all_guards) env_signed_hq true w_equals = Ok Dropped /\
-  handle (mkcfg Ecdsa false true all_guards) env_unsigned_hq true w_equals' = Ok Dropped.
+  handle (mkcfg Ecdsa false true (set_guard 8 false all_guards)) env_all true w_equals = Ok Dropped /\
+  handle (mkcfg Ecdsa false true (set_guard 8 false all_guards)) env_all true w_equals' = Ok Dropped.
 Proof. vm_compute. split; reflexivity. Qed.
 
 (* the same witnesses are harmless in the repaired code: those in which nothing verifies are dropped *)
